@@ -79,6 +79,28 @@ func (ff *FuncFacts) FactsAt(blk *ssa.BasicBlock) []Fact {
 	return out
 }
 
+// FactsOnEdge returns the facts known when control flows from pred to blk:
+// everything that holds at pred plus the branch fact of that very edge.
+func (ff *FuncFacts) FactsOnEdge(pred, blk *ssa.BasicBlock) []Fact {
+	out := ff.FactsAt(pred)
+	for i, e := range ff.Edges {
+		if e.From == pred && e.To == blk && pred.Succs[0] != pred.Succs[1] {
+			out = append(out, ff.Facts[i])
+		}
+	}
+	return out
+}
+
+// CmpHoldsOnEdge: some fact on the edge pred→blk entails the comparison.
+func (ff *FuncFacts) CmpHoldsOnEdge(pred, blk *ssa.BasicBlock, c CmpSpec) (bool, string) {
+	for _, f := range ff.FactsOnEdge(pred, blk) {
+		if f.Entails(c) {
+			return true, f.String()
+		}
+	}
+	return false, ""
+}
+
 // CmpHoldsAt: some dominating edge fact entails the comparison.
 func (ff *FuncFacts) CmpHoldsAt(blk *ssa.BasicBlock, c CmpSpec) (bool, string) {
 	for _, f := range ff.FactsAt(blk) {
